@@ -252,3 +252,19 @@ VARIANTS += [
     V("n-v2-temporal-guard-rewrite", ALL, C2, 'if all(self.metrics.get(a, "ND") == "ND" for a in TEMPORAL_METRICS):\n            self.temporal_score = None\n        else:\n            self.temporal_score = max(D("0.0"), self.temporal_score_equation())', 'if any(self.metrics.get(a, "ND") != "ND" for a in TEMPORAL_METRICS):\n            self.temporal_score = max(D("0.0"), self.temporal_score_equation())\n        else:\n            self.temporal_score = None', "silent"),
     V("n-parser-regex-flags-free", ALL, PAR, 'matches = re.compile(r"(?:CVSS:3\\.\\d/)?[A-Za-z:/]{26,}").findall(text)', 'matches = re.findall(r"(?:CVSS:3\\.\\d/)?[A-Za-z:/]{26,}", text)', "silent"),
 ]
+
+VARIANTS += [
+    V("n2-v3-loop-header-split", ALL, C3, '        try:\n            fields = self.vector.split("/")[1:]\n        except IndexError:\n            raise CVSS3MalformedError(\'Malformed CVSS3 vector "{0}"\'.format(self.vector))\n\n        # Parse fields\n        for field in fields:', '        # Parse fields\n        for field in self.vector.split("/")[1:]:', "silent"),
+    V("n2-v3-prefix-order", ALL, C3, '        if self.vector.startswith("CVSS:3.0/"):\n            self.minor_version = 0\n        elif self.vector.startswith("CVSS:3.1/"):\n            self.minor_version = 1\n        else:', '        if self.vector.startswith("CVSS:3.1/"):\n            self.minor_version = 1\n        elif self.vector.startswith("CVSS:3.0/"):\n            self.minor_version = 0\n        else:', "silent"),
+    V("n2-v2-rename-components", ALL, C2, '                metric, value = field.split(":")\n            except ValueError:\n                raise CVSS2MalformedError(\'Malformed CVSS2 field "{0}"\'.format(field))\n\n            if metric in METRICS_ABBREVIATIONS:\n                if value in METRICS_VALUES[metric]:\n                    if metric in self.metrics:\n                        raise CVSS2MalformedError(\'Duplicate metric "{0}"\'.format(metric))\n                    self.metrics[metric] = value\n                else:\n                    raise CVSS2MalformedError(\n                        \'Unknown value "{0}" in field "{1}"\'.format(value, field)\n                    )\n            else:\n                raise CVSS2MalformedError(\n                    \'Unknown metric "{0}" in field "{1}"\'.format(metric, field)\n                )', '                key, val = field.split(":")\n            except ValueError:\n                raise CVSS2MalformedError(\'Malformed CVSS2 field "{0}"\'.format(field))\n\n            if key in METRICS_ABBREVIATIONS:\n                if val in METRICS_VALUES[key]:\n                    if key in self.metrics:\n                        raise CVSS2MalformedError(\'Duplicate metric "{0}"\'.format(key))\n                    self.metrics[key] = val\n                else:\n                    raise CVSS2MalformedError(\n                        \'Unknown value "{0}" in field "{1}"\'.format(val, field)\n                    )\n            else:\n                raise CVSS2MalformedError(\n                    \'Unknown metric "{0}" in field "{1}"\'.format(key, field)\n                )', "silent"),
+    V("n2-rh-merged-try", ALL, C2, '        try:\n            score, base_vector = vector.split("/", 1)\n        except ValueError:\n            raise CVSS2RHMalformedError(\n                \'Malformed CVSS2 vector in Red Hat notation "{0}"\'.format(vector)\n            )\n        try:\n            score_value = float(score)\n        except ValueError:', '        try:\n            score, base_vector = vector.split("/", 1)\n            score_value = float(score)\n        except ValueError:', "silent"),
+    V("n2-rh-inverted-test", ALL, C3, '        if cvss_object.scores()[0] == score_value:\n            return cvss_object\n        else:\n            raise CVSS3RHScoreDoesNotMatch(', '        if cvss_object.scores()[0] == score_value:\n            return cvss_object\n        raise CVSS3RHScoreDoesNotMatch(', "silent", all=False),
+    V("n2-parser-module-regex", ALL, PAR, 'def parse_cvss_from_text(text):', 'CANDIDATE = r"(?:CVSS:3\\.\\d/)?[A-Za-z:/]{26,}"\n\n\ndef parse_cvss_from_text(text):', "silent"),
+    V("n2-interactive-values-list", ALL, INT, "        values = METRICS_VALUE_NAMES[metric]\n", "        values = list(METRICS_VALUE_NAMES[metric])\n", "silent"),
+    V("n2-cli-class-variable", ALL, CLI, "            if version == 2:\n                cvss_vector = CVSS2(vector_string)\n            elif 3.0 <= version < 4.0:\n                cvss_vector = CVSS3(vector_string)\n            elif version == 4.0:\n                cvss_vector = CVSS4(vector_string)\n            else:\n                raise CVSSError(\"Unknown version: {0}\".format(version))", "            if version == 2:\n                cvss_class = CVSS2\n            elif 3.0 <= version < 4.0:\n                cvss_class = CVSS3\n            elif version == 4.0:\n                cvss_class = CVSS4\n            else:\n                raise CVSSError(\"Unknown version: {0}\".format(version))\n            cvss_vector = cvss_class(vector_string)", "silent"),
+    V("n2-v4-levels-module-level", ALL, C4, '        AV_levels = {"N": 0.0, "A": 0.1, "L": 0.2, "P": 0.3}\n', '        AV_levels = dict(N=0.0, A=0.1, L=0.2, P=0.3)\n', "silent"),
+    V("n2-v3-env-temporal-helper", ALL, C3, '            self.environmental_score = round_up(\n                modified * self.get_value("E") * self.get_value("RL") * self.get_value("RC")\n            )', '            temporal_factor = self.get_value("E") * self.get_value("RL") * self.get_value("RC")\n            self.environmental_score = round_up(temporal_factor * modified)', "silent"),
+    V("n2-v2-as-json-locals", ALL, C2, '            data["temporalScore"] = float(self.temporal_score) if self.temporal_score else 0.0', '            temporal = self.temporal_score\n            data["temporalScore"] = float(temporal) if temporal else 0.0', "silent"),
+    V("n2-v3-hash-tuple", ALL, C3, "        return hash(self.clean_vector())", "        return hash((self.clean_vector(),))", "silent"),
+    V("n2-v3-eq-tuple-key", ALL, C3, "            return self.clean_vector() == o.clean_vector()", "            return (self.minor_version, self.clean_vector(output_prefix=False)) == (\n                o.minor_version,\n                o.clean_vector(output_prefix=False),\n            )", "silent"),
+]
